@@ -259,7 +259,7 @@ func (p Parameters) ParametersLiteral() ParametersLiteral {
 		Xe:           p.xe.DistributionParameters,
 		Xs:           p.xs.DistributionParameters,
 		RingType:     p.ringType,
-		DefaultScale: p.defaultScale,
+		DefaultScale: p.DefaultScale(),
 		NTTFlag:      p.nttFlag,
 	}
 }
@@ -272,7 +272,10 @@ func (p Parameters) GetRLWEParameters() *Parameters {
 // NewScale creates a new scale using the stored default scale as template.
 func (p Parameters) NewScale(scale interface{}) Scale {
 	newScale := NewScale(scale)
-	newScale.Mod = p.defaultScale.Mod
+	if p.defaultScale.Mod != nil {
+		// a modulus of its own (see DefaultScale)
+		newScale.Mod = new(big.Int).Set(p.defaultScale.Mod)
+	}
 	return newScale
 }
 
@@ -304,7 +307,15 @@ func (p Parameters) LogNthRoot() int {
 
 // DefaultScale returns the default scaling factor of the plaintext, if any.
 func (p Parameters) DefaultScale() Scale {
-	return p.defaultScale
+	// The value handed out (it becomes the scale of every new plaintext and ciphertext)
+	// has big numbers of its own: a struct copy would share their storage with the
+	// parameters and with every copy of them.
+	s := p.defaultScale
+	s.Value = *new(big.Float).Copy(&p.defaultScale.Value)
+	if s.Mod != nil {
+		s.Mod = new(big.Int).Set(s.Mod)
+	}
+	return s
 }
 
 // RingQ returns a pointer to ringQ
